@@ -83,6 +83,46 @@ def gen_txn(rng: random.Random, tier: str) -> dict:
     return {"store": cfg, "keys": keys, "initial": initial, "clients": clients}
 
 
+def gen_txn_long(rng: random.Random, tier: str) -> dict:
+    """One or two long-lived transactions (SERIALIZABLE write-skew partner, SNAPSHOT_ISOLATION double reader) stay
+    open while 3 ... 4200 short READ_COMMITTED transactions (single blind writes to keys nobody reads) commit; the
+    one conflicting short transaction commits early in that window.  KVStore, so a case costs 0.01-0.4 s."""
+    cfg = {"engine": "kv", "read_latency": rng.choice([0.0, 0.00005, 0.0002]), "write_latency": 0.001, "delete_latency": None}
+    n_fill = rng.choice([3, 40, 1100, 1100, 1300, 2100, 4200, 4200])
+    n_fc = rng.randint(2, 5)
+    per = -(-n_fill // n_fc)
+    # a filler transaction takes 12 us (begin 1 us, write 1 us, commit 10 us); the long ones must outlast all of them
+    hold = round(per * 12e-6 * rng.choice([1.1, 1.5]) + 0.0005, 6)
+    keys = ["x", "y", "p", "q"]
+    initial = {"x": "x0", "y": "y0", "p": "p0", "q": "q0"}
+    tiny = lambda: rng.choice([0.0, 0.0, 1e-6, 5e-6, 2e-5])  # noqa: E731
+
+    def tx(iso, ops, think=0.0, end_think=0.0):
+        return {"think": think, "iso": iso, "ops": ops, "end": "commit", "end_think": end_think}
+
+    clients = []
+    kinds = rng.choice([["ser"], ["si"], ["ser", "si"], ["ser", "si"]])
+    early = rng.choice([0.0, 2e-5, 1e-4])  # when the conflicting short transactions start
+    if "ser" in kinds:
+        a, b = rng.choice([("x", "y"), ("y", "x")])
+        # L reads a ... writes b ; E reads b, writes a, commits early  (write skew unless one of them aborts)
+        clients.append({"start": tiny(), "txns": [tx("ser", [[0.0, "r", a], [hold, "w", b]], end_think=tiny())]})
+        clients.append({"start": early + tiny(), "txns": [tx("ser", [[0.0, "r", b], [tiny(), "w", a]])]})
+    if "si" in kinds:
+        # L2 reads p ... reads q ; E2 writes p and q atomically, early
+        clients.append({"start": tiny(), "txns": [tx("si", [[0.0, "r", "p"], [hold, "r", "q"]], end_think=tiny())]})
+        clients.append({"start": early + tiny(), "txns": [tx(rng.choice(["si", "ser", "rc"]), [[0.0, "w", "p"], [tiny(), "w", "q"]])]})
+    if rng.random() < 0.4:
+        # an unrelated short reader / writer pair late in the window
+        clients.append({"start": hold / 2, "txns": [tx(rng.choice(["ser", "si"]), [[0.0, "r", "x"], [tiny(), "r", "p"]])]})
+    for j in range(n_fc):
+        n = min(per, n_fill - j * per)
+        if n <= 0:
+            break
+        clients.append({"start": 1e-4 + 2e-4 + j * 1e-6, "txns": [tx("rc", [[0.0, "w", f"f{j}"]]) for _ in range(n)]})
+    return {"store": cfg, "keys": keys + [f"f{j}" for j in range(n_fc)], "initial": initial, "clients": clients, "n_fill": n_fill}
+
+
 class TxnClient(Entity):
     def __init__(self, idx, tm, txns, log, ctr):
         super().__init__(f"txclient{idx}")
@@ -166,8 +206,13 @@ def run_txn(case: dict) -> Result:
     # ---- SERIALIZABLE: some serial order explains every read of the committed SERIALIZABLE transactions
     ser = [t for t in committed if t["iso"] == "ser"]
     if ser:
-        model_txns = [{"id": t["id"], "check": t["iso"] == "ser", "ops": [tuple(o[:3]) for o in t["ops"]]} for t in committed]
-        found, exhausted, commit_order_ok = explain_serial(model_txns, initial, order)
+        # Transactions whose reads are not judged and whose writes touch no key that a judged transaction reads cannot
+        # influence any expected read value: leaving them out of the order search changes nothing (and keeps the
+        # search tractable when a long transaction overlaps thousands of blind writers).
+        judged_keys = {o[1] for t in ser for o in t["ops"] if o[0] == "r"}
+        relevant = [t for t in committed if t["iso"] == "ser" or any(o[0] == "w" and o[1] in judged_keys for o in t["ops"])]
+        model_txns = [{"id": t["id"], "check": t["iso"] == "ser", "ops": [tuple(o[:3]) for o in t["ops"]]} for t in relevant]
+        found, exhausted, commit_order_ok = explain_serial(model_txns, initial, [t["id"] for t in relevant])
         res.count("txn_serial_checks")
         if not commit_order_ok:
             res.count("txn_serial_needed_search")
@@ -204,6 +249,19 @@ def run_txn(case: dict) -> Result:
             f"SI transaction {t['id']} (client {t['c']}) read {[(o[1], o[2]) for o in ext]}: no committed state S_0..S_{len(order)} has all these values",
             {"txn": t, "commit_order": order, "states": states},
         )
+
+    # ---- long-lived transactions: how many other commits fell between begin and commit
+    import bisect
+
+    cs = [t["commit_s"] for t in committed]
+    for t in log:
+        if t["commit_s"] is None:
+            continue
+        n_between = bisect.bisect_left(cs, t["commit_s"]) - bisect.bisect_right(cs, t["begin_s"])
+        if n_between >= 1024 and t["iso"] in ("ser", "si"):
+            res.count("txns_open_across_1024_or_more_commits")
+        if n_between >= 4096 and t["iso"] in ("ser", "si"):
+            res.count("txns_open_across_4096_or_more_commits")
 
     # ---- non-triviality
     def keyset(t):
